@@ -610,14 +610,14 @@ type c07Gen struct {
 var c07GPUMenu = [][2]int64{{25, 25}, {50, 50}, {100, 100}, {100, 100}, {50, 25}, {25, 50}}
 
 func (g *c07Gen) devRes(t string, m int) map[string]int64 {
-	full := int64(100)
-	if g.rng.Intn(8) == 0 {
-		full = 50 // a shrunk (not zero) total
-	}
 	switch t {
-	case "gpu":
-		return map[string]int64{"core": full, "ratio": full, "mem": g.gpuMem[m] * full / 100}
+	case "gpu": // a healthy GPU always reports 100 percent of core / memory and its memory size
+		return map[string]int64{"core": 100, "ratio": 100, "mem": g.gpuMem[m]}
 	default:
+		full := int64(100)
+		if g.rng.Intn(6) == 0 {
+			full = 50 // a shrunk (not zero) total
+		}
 		return map[string]int64{t: full}
 	}
 }
@@ -654,12 +654,39 @@ func (g *c07Gen) subset(n int) []int {
 	return s
 }
 
+// free amounts of one device as the cache reports them (steering only)
+func (g *c07Gen) freeOf(t string, m int) map[string]int64 {
+	sum, ok := g.w.cache.getNodeDeviceSummary(c07Node)
+	if !ok {
+		return nil
+	}
+	return c07Ints(sum.DeviceFreeDetail[schedulingv1alpha1.DeviceType(t)][m])
+}
+
 func (g *c07Gen) request(t string) c07Req {
 	cnt := 1
 	if g.rng.Intn(3) == 0 {
 		cnt = 2 + g.rng.Intn(2)
 	}
+	// boundary value: ask for exactly what some device has left
+	if g.rng.Intn(6) == 0 {
+		free := g.freeOf(t, g.rng.Intn(g.nminor))
+		if t == "gpu" && free["ratio"] >= 1 && free["core"] >= 1 {
+			return c07Req{Req: map[string]int64{"core": 1 + g.rng.Int63n(free["core"]), "ratio": free["ratio"]}, Cnt: 1}
+		}
+		if t != "gpu" && free[t] >= 1 {
+			return c07Req{Req: map[string]int64{t: free[t]}, Cnt: 1}
+		}
+	}
 	if t == "gpu" {
+		switch g.rng.Intn(8) {
+		case 0: // GPU memory in bytes (any amount, not a whole percentage of the device)
+			return c07Req{Req: map[string]int64{"core": []int64{10, 25, 50}[g.rng.Intn(3)], "mem": 100 + g.rng.Int63n(5000)}, Cnt: cnt}
+		case 1:
+			return c07Req{Req: map[string]int64{"mem": 100 + g.rng.Int63n(5000)}, Cnt: 1}
+		case 2:
+			return c07Req{Req: map[string]int64{"ratio": []int64{10, 25, 50}[g.rng.Intn(3)]}, Cnt: 1}
+		}
 		p := c07GPUMenu[g.rng.Intn(len(c07GPUMenu))]
 		if g.thorough && g.rng.Intn(6) == 0 {
 			p = [2]int64{int64(5 * (1 + g.rng.Intn(20))), int64(5 * (1 + g.rng.Intn(20)))}
@@ -849,6 +876,56 @@ func c07Count(stats map[string]int, ev vu.Ev) {
 	}
 }
 
+// enumerated boundary histories (deterministic): n pods ask for b bytes of GPU memory on a GPU of size T, then one pod
+// asks, in percent, for exactly / one less than what the ledger reports as left, or in bytes for what is left.
+func c07Boundary(rec *vu.Recorder, stats map[string]int) {
+	emit := func(w *c07World, o c07Op) vu.Ev {
+		ev, ok := w.apply(&o)
+		if !ok {
+			panic("c07: boundary operation not executable: " + o.Op)
+		}
+		ev["obs"] = w.obs()
+		rec.Emit(ev)
+		c07Count(stats, ev)
+		return ev
+	}
+	for _, T := range []int64{8000, 16000} {
+		for _, b := range []int64{1000, 2500, 3000, 3300, 5000} {
+			for n := 1; n <= 3 && int64(n)*b < T; n++ {
+				for _, last := range []string{"ratio-left", "ratio-left-1", "mem-left"} {
+					for _, filter := range []bool{true, false} {
+						w := c07NewWorld()
+						rec.Reset(nil)
+						emit(w, c07Op{Op: "inventory", Devices: []c07Dev{{T: "gpu", M: 0, H: true, Res: map[string]int64{"core": 100, "ratio": 100, "mem": T}}}})
+						for i := 0; i < n; i++ {
+							emit(w, c07Op{Op: "alloc", Pod: fmt.Sprintf("p%d", i), Filter: filter, Commit: true,
+								Reqs: c07Reqs{"gpu": {Req: map[string]int64{"core": 10, "mem": b}, Cnt: 1}}})
+						}
+						sum, _ := w.cache.getNodeDeviceSummary(c07Node)
+						free := c07Ints(sum.DeviceFreeDetail[schedulingv1alpha1.GPU][0])
+						req := map[string]int64{"core": 10, "ratio": free["ratio"]}
+						switch last {
+						case "ratio-left-1":
+							req["ratio"] = free["ratio"] - 1
+						case "mem-left":
+							req = map[string]int64{"core": 10, "mem": free["mem"]}
+						}
+						if req["ratio"] < 1 && req["mem"] < 1 {
+							continue
+						}
+						pod := fmt.Sprintf("p%d", n)
+						emit(w, c07Op{Op: "alloc", Pod: pod, Filter: filter, Commit: true, Reqs: c07Reqs{"gpu": {Req: req, Cnt: 1}}})
+						if len(w.resv[pod]) > 0 {
+							emit(w, c07Op{Op: "bind", Pod: pod})
+							emit(w, c07Op{Op: "delete", Pod: pod})
+						}
+					}
+				}
+			}
+		}
+	}
+}
+
 func TestVerifC07(t *testing.T) {
 	if !vu.Enabled() {
 		t.Skip("verification harness: VERIF_OUT not set")
@@ -879,6 +956,7 @@ func TestVerifC07(t *testing.T) {
 	n = vu.EnvInt("VERIF_C07_N", n)
 	rng := vu.Rand(7)
 	stats := map[string]int{}
+	c07Boundary(rec, stats)
 	for i := 0; i < n; i++ {
 		c07Random(rec, rng, length, vu.Thorough(), stats)
 	}
